@@ -43,6 +43,8 @@ fn tx_ops(tx: &Transaction) {
         let _ = tx.check_outputs_with(&ck);
     }
     for o in &tx.prefix.outputs { let _ = o.get_one_time_key(); let _ = o.target.check_view_tag(vp.spend, 300); }
+    // the view tag at ANY output position (a public function of `usize`): every varint width of the position
+    for o in tx.prefix.outputs.iter().take(4) { for i in [0usize, 127, 128, 16383, 16384, 1 << 21, 1 << 28, 1 << 35, u32::MAX as usize, usize::MAX >> 1, usize::MAX] { let _ = o.target.check_view_tag(vp.spend, i); } }
     let _ = serde_json::to_string(tx);
     // "any key pair": other view pairs — another spend key, the same spend key under view scalars 0 and 1, and the pair with a
     // small-order (torsion) spend point
@@ -96,8 +98,10 @@ pub fn exec(t: &[&str]) -> Option<String> {
                 "addrtype" => { let mut any = false; for n in [Network::Mainnet, Network::Testnet, Network::Stagenet] { if let Ok(t) = AddressType::from_slice(&b, n) { any = true; let _ = format!("{}", t); } } if any { "ok".into() } else { "err".into() } }
                 "pubkey_str" => if !valid_utf8 { "err".into() } else { okerr(PublicKey::from_str(&s), |k| { let _ = format!("{} {:?}", k, k); let _ = serialize(k); let _ = *k + *k; let _ = *k - *k; }) },
                 "seckey_str" => if !valid_utf8 { "err".into() } else { okerr(PrivateKey::from_str(&s), |k| { let _ = format!("{}", k); let _ = serialize(k); let _ = *k + *k; let _ = PublicKey::from_private_key(k); }) },
-                "pubkey_bytes" => okerr(PublicKey::from_slice(&b), |k| { let _ = k.to_bytes(); }),
-                "seckey_bytes" => okerr(PrivateKey::from_slice(&b), |k| { let _ = k.to_bytes(); }),
+                "pubkey_bytes" => { { use std::convert::TryFrom; let _ = PublicKey::try_from(&b[..]).map(|k| k.to_bytes()); if let Ok(a) = <[u8; 32]>::try_from(&b[..]) { let _ = PublicKey::try_from(a).map(|k| k.to_bytes()); } }
+                                    okerr(PublicKey::from_slice(&b), |k| { let _ = k.to_bytes(); }) },
+                "seckey_bytes" => { { use std::convert::TryFrom; let _ = PrivateKey::try_from(&b[..]).map(|k| k.to_bytes()); if let Ok(a) = <[u8; 32]>::try_from(&b[..]) { let _ = PrivateKey::try_from(a).map(|k| k.to_bytes()); } }
+                                    okerr(PrivateKey::from_slice(&b), |k| { let _ = k.to_bytes(); }) },
                 "hash_hex" => okerr(<Hash as hex::FromHex>::from_hex(&b), |x| { let _ = format!("{:?} {}", x, x); let _ = x.as_scalar(); }),
                 "hash_str" => if !valid_utf8 { "err".into() } else { okerr(Hash::from_str(&s), |x| { let _ = x.to_bytes(); }) },
                 "paymentid_hex" => okerr(<PaymentId as hex::FromHex>::from_hex(&b), |x| { let _ = format!("{:?}", x); }),
@@ -115,7 +119,8 @@ pub fn exec(t: &[&str]) -> Option<String> {
         // the checks are the isolation ones (no panic / abort / timeout, peak heap within the PARSE-ONLY bound `big_bound`).
         ["c04_big", fam, n, mode] => { let n = n.parse::<usize>().ok()?; let (entry, b) = big_input(fam, n)?; let ops = *mode == "ops";
             Some(match entry {
-                "tx" => okerr(deserialize::<Transaction>(&b), |x| if ops { tx_ops(x) }),
+                // mode `scan`: one output scan of the parsed transaction (window 0..1 x 0..1) and nothing else
+                "tx" => okerr(deserialize::<Transaction>(&b), |x| if ops { tx_ops(x) } else if *mode == "scan" { let _ = x.check_outputs(&view_pair(), 0..1, 0..1); }),
                 "block" => okerr(deserialize::<Block>(&b), |x| if ops { block_ops(x) }),
                 "varint" => okerr(deserialize::<VarInt>(&b), |_| ()),
                 "extra" => { let raw = RawExtraField(b); let r = ExtraField::try_parse(&raw); let f = match &r { Ok(f) => f, Err(f) => f };
@@ -173,6 +178,12 @@ pub fn big_input(fam: &str, n: usize) -> Option<(&'static str, Vec<u8>)> {
     Some(match fam {
         // n outputs and n additional public keys (valid points) in the extra
         "tx_outs" => { let mut e = Vec::with_capacity(40 + 32 * n); e.push(1); e.extend(G_BYTES); e.push(4); e.extend(gen::varint_bytes(n as u64)); for _ in 0..n { e.extend(G_BYTES); } ("tx", raw_tx(n, &e)) }
+        // n VIEW-TAGGED outputs with a decodable key each and a transaction key in the extra: scanning evaluates the view tag at every
+        // position, beyond 16384 with a three-byte varint position (stack buffers sized from a mis-computed varint length overflow there)
+        "tx_outs_tagged" => { let mut e = vec![1u8]; e.extend(G_BYTES);
+            let mut b = Vec::with_capacity(16 + 36 * n + 40); b.extend([2u8, 0, 1, 0xff, 0]); b.extend(gen::varint_bytes(n as u64));
+            for i in 0..n { b.extend([0u8, 3]); b.extend(G_BYTES); b.push((i % 251) as u8); }
+            b.extend(gen::varint_bytes(e.len() as u64)); b.extend_from_slice(&e); b.push(0); ("tx", b) }
         // extra = n empty nonces: the largest number of parsed sub-fields per input byte
         "extra_0200" => ("extra", [2u8, 0].repeat(n)),
         "extra_keys" => { let mut e = Vec::with_capacity(33 * n); for _ in 0..n { e.push(1); e.extend(G_BYTES); } ("extra", e) }
@@ -452,10 +463,12 @@ pub fn run(o: &mut Out, tier: &str, seed: u64) {
       let full = serialize(&tx); let attacked = count_attacks_everywhere(&full[..full.len().min(120)], &mut r);
       for _ in 0..(if thorough { 12 } else { 3 }) { let m = r.pick(&attacked).clone(); let mut m2 = m.clone(); m2.extend_from_slice(&full[full.len().min(120)..]);
           for k in (0..m2.len().min(400)).step_by(if thorough { 1 } else { 2 }) { bin(&mut iso, o, "tx", &m2[..k], false); } } }
+    // key parsers (from_slice, TryFrom<&[u8]>, TryFrom<[u8; 32]>) at EVERY length 0..=70
+    for len in 0..=70usize { let b = r.bytes(len); bin(&mut iso, o, "pubkey_bytes", &b, false); bin(&mut iso, o, "seckey_bytes", &b, false); }
     // (9) LARGE inputs, where the slope of the heap bound and super-linear time become visible (built inside the child from (family, n))
-    { let sizes: &[(&str, usize, &str)] = if thorough { &[("tx_outs", 20_000, "parse"), ("tx_outs", 4_000, "ops"), ("extra_0200", 100_000, "ops"), ("extra_0200", 1_000_000, "parse"), ("extra_keys", 30_000, "ops"), ("extra_nonces", 4_000, "ops"),
+    { let sizes: &[(&str, usize, &str)] = if thorough { &[("tx_outs", 20_000, "parse"), ("tx_outs", 4_000, "ops"), ("tx_outs_tagged", 70_000, "scan"), ("extra_0200", 100_000, "ops"), ("extra_0200", 1_000_000, "parse"), ("extra_keys", 30_000, "ops"), ("extra_nonces", 4_000, "ops"),
               ("tx_extra_0200", 200_000, "parse"), ("block_hashes", 1 << 17, "parse"), ("block_hashes", 1 << 20, "parse"), ("block_hashes", (1 << 20) + 1, "parse"), ("varint_ff", 1 << 20, "parse"), ("tx_ff", 1 << 20, "parse"), ("block_ff", 1 << 22, "parse")] }
-          else { &[("tx_outs", 3_000, "parse"), ("tx_outs", 600, "ops"), ("extra_0200", 100_000, "parse"), ("extra_0200", 20_000, "ops"), ("extra_keys", 5_000, "ops"), ("extra_nonces", 1_000, "ops"), ("tx_extra_0200", 50_000, "parse"),
+          else { &[("tx_outs", 3_000, "parse"), ("tx_outs", 600, "ops"), ("tx_outs_tagged", 16_600, "scan"), ("extra_0200", 100_000, "parse"), ("extra_0200", 20_000, "ops"), ("extra_keys", 5_000, "ops"), ("extra_nonces", 1_000, "ops"), ("tx_extra_0200", 50_000, "parse"),
               ("block_hashes", 1 << 15, "parse"), ("block_hashes", 1 << 20, "parse"), ("varint_ff", 1 << 20, "parse"), ("tx_ff", 1 << 18, "parse"), ("block_ff", 1 << 20, "parse")] };
       for (fam, n, mode) in sizes { let (entry, len) = big_input(fam, *n).map(|x| (x.0, x.1.len())).unwrap_or(("", 0));
           let limit = if *mode == "parse" { if matches!(entry, "tx" | "block" | "varint") { ledger_bound(len) } else { big_bound(len) } } else { bound(len) };
